@@ -48,21 +48,44 @@ def params_for(strategy, tier):
 
 
 def build_kwargs(ctx, p):
+    """keyword arguments for a strategy; the value "sym" makes the parameter a solver variable over its documented
+    range (alpha in (0,1], beta in [0,1], exp in (0,4]); one variable per parameter and path"""
+    cache = ctx.uf_table("strategy-params")
+    key = tuple(sorted((k, str(v)) for k, v in p.items()))
+    if key in cache:
+        return dict(cache[key])
     kw = {}
     for k, v in p.items():
         if k == "a":
             kw[k] = int(v)
+        elif v == "sym":
+            t = ctx.real("param_" + k)
+            lo, hi, lo_open = {"alpha": (0, 1, True), "beta": (0, 1, False), "exp": (0, 4, True)}[k]
+            ctx.assume(ctx.And(ctx.lt(lo, t) if lo_open else ctx.le(lo, t), ctx.le(t, hi)))
+            kw[k] = t
         else:
             kw[k] = num(ctx, v)
+    cache[key] = dict(kw)
     return kw
 
 
-def effective_a(p, n):
+def effective_a(p, n, ctx=None):
+    """the documented window a = max(2, int(alpha * n)) (or the explicit a); with a symbolic alpha the int() forks
+    over the feasible values exactly like the constructor's own int()"""
     if "a" in p:
         a = int(p["a"])
+    elif p.get("alpha") == "sym":
+        a = int(build_kwargs(ctx, p)["alpha"] * n)
     else:
         a = int(Fraction(p.get("alpha", "1")) * n)
     return max(a, 2)
+
+
+def linear_part(ctx, p, a_side):
+    """b = int(beta * a_side), the documented linear sub-window of the exp strategies"""
+    if p.get("beta") == "sym":
+        return int(build_kwargs(ctx, p)["beta"] * a_side)
+    return math.floor(Fraction(p.get("beta", "1/2")) * a_side)
 
 
 def make(ctx, strategy, x, y, n, p):
@@ -171,13 +194,13 @@ def windows_of(ctx, strategy_obj, strategy, p, G, Xarr, Yarr):
     """windows per interval index -1..m-1 as used by the strategy (fixed: from the constructor's
     documented rule; adaptive: from the public static get_adaptive_transition_points)."""
     n, m = G.n, G.m
-    a = effective_a(p, n)
+    a = effective_a(p, n, ctx)
     if strategy in ("LinearFixedRFA", "ExpFixedRFA"):
         al = {k: a // 2 for k in range(-1, m)}
         ar = dict(al)
         bl = br = None
         if strategy == "ExpFixedRFA":
-            b = math.floor(Fraction(p.get("beta", "1/2")) * (a // 2))
+            b = linear_part(ctx, p, a // 2)
             bl = {k: b for k in range(-1, m)}
             br = dict(bl)
         return a, al, ar, bl, br
@@ -193,9 +216,8 @@ def windows_of(ctx, strategy_obj, strategy, p, G, Xarr, Yarr):
     ar = {k - 1: int(v) for k, v in enumerate(a_rs)}
     bl = br = None
     if strategy == "ExpAdaptiveRFA":
-        beta = Fraction(p.get("beta", "1/2"))
-        bl = {k: math.floor(beta * v) for k, v in al.items()}
-        br = {k: math.floor(beta * v) for k, v in ar.items()}
+        bl = {k: linear_part(ctx, p, v) for k, v in al.items()}
+        br = {k: linear_part(ctx, p, v) for k, v in ar.items()}
     return a, al, ar, bl, br
 
 
@@ -212,6 +234,20 @@ def inputs(ctx, m, grid):
         X = [Sym.lift(g) for g in gx] if ctx.symbolic else [float(g) for g in gx]
         x = cx(ctx, gx)
     return x, arr(ctx, ys), X, ys
+
+
+def symbolic_param_configs(tier, strategies=("LinearFixedRFA", "ExpFixedRFA", "ExpAdaptiveRFA")):
+    """configurations whose strategy parameters (alpha, beta) are solver variables over their whole documented range:
+    the window sizes a = int(alpha n), b = int(beta a_l) fork over every feasible integer"""
+    out = []
+    for s in strategies:
+        adaptive = "Adaptive" in s
+        for m in ((3,) if tier == "quick" else (3, 4)):
+            for n in ((5, 6) if not adaptive else (3,)) if tier == "quick" else ((5, 6, 7, 8) if not adaptive else (3, 4)):
+                grid = [str(g) for g in gap_grids(m, tier, limit=1)[2]]
+                p = {"alpha": "sym"} if s.startswith("Linear") else {"alpha": "sym", "beta": "sym", "exp": "2"}
+                out.append({"strategy": s, "m": m, "n": n, "grid": grid, "p": p})
+    return out
 
 
 def shape_configs(tier, strategies, sym_x_max_m, max_m, ns, adaptive_max_m=None):
